@@ -86,7 +86,10 @@ class SyntaxParserOfLark:
 
 		# ストレージに存在しないモジュールはメモリ上に存在すると見做して毎回パース
 		if not self.__sources.exists(source_path):
-			return EntryOfLark(parser.parse(self.__source_provider(module_path)))
+			try:
+				return EntryOfLark(parser.parse(self.__source_provider(module_path)))
+			except Exception as e:
+				raise Errors.Syntax(source_path, e) from e
 
 		def instantiate() -> EntryStored:
 			try:
